@@ -125,22 +125,34 @@ def _run_worker(ctx, module, func, cases, extra_env=None):
     return json.loads(p.stdout.decode())
 
 
-def run_impl(ctx, module, func, cases, shards=None, fresh_each=False):
+def run_impl(ctx, module, func, cases, shards=None, fresh_each=False, key=None):
     """Run harness.props.<module>.<func>(case) on the implementation (scratch copy)
-    for every case; order is preserved. Each shard is a fresh interpreter."""
+    for every case; order is preserved. Each shard is a fresh interpreter. With `key`,
+    cases with the same key are run in the same interpreter, in their order (state that
+    leaks between related classes or enzymes then has a chance to show)."""
     cases = list(cases)
     if not cases:
         return []
     if fresh_each:
         shards = len(cases)
     shards = max(1, min(shards or NCPU, len(cases)))
-    chunks = [cases[i::shards] for i in range(shards)]
+    if key is None:
+        index = [list(range(i, len(cases), shards)) for i in range(shards)]
+    else:
+        groups = {}
+        for i, c in enumerate(cases):
+            groups.setdefault(key(c), []).append(i)
+        index = [[] for _ in range(shards)]
+        for g in sorted(groups.values(), key=len, reverse=True):
+            min(index, key=len).extend(g)
+        index = [ix for ix in index if ix]
+    chunks = [[cases[i] for i in ix] for ix in index]
     with ThreadPoolExecutor(max_workers=NCPU) as ex:
         outs = list(ex.map(lambda c: _run_worker(ctx, module, func, c), chunks))
     res = [None] * len(cases)
-    for s, out in enumerate(outs):
-        for j, o in enumerate(out):
-            res[s + j * shards] = o
+    for ix, out in zip(index, outs):
+        for i, o in zip(ix, out):
+            res[i] = o
     return res
 
 
